@@ -313,7 +313,7 @@ func Monitor(h *History, log []RPCRecord, tsos []TSORecord) []sched.Violation {
 					return // the owner resolving its own (pipelined) locks is judged elsewhere
 				}
 				if commit > 0 {
-					if !k.commitTS[commit] && !(k.asyncSeen && commit == k.asyncMin) {
+					if !k.commitTS[commit] && !(k.asyncSeen && !k.rolledBack && commit == k.asyncMin) {
 						add("resolve-with-underived-commit-ts", "client %d resolves transaction %d as committed at %d, but no status answer it received reported that commit ts (reported %v, async-derived %d)", r.Client, start, commit, keysU(k.commitTS), k.asyncMin)
 					}
 				} else if !k.rolledBack {
@@ -396,6 +396,9 @@ func Monitor(h *History, log []RPCRecord, tsos []TSORecord) []sched.Violation {
 		t := recOf[s]
 		if t == nil || len(x.mutKeys) == 0 {
 			continue
+		}
+		if t.Outcome == "open" || t.Outcome == "unstarted" {
+			continue // the owner never got an answer (crashed / cut off): its prewrites may be incomplete
 		}
 		if len(x.primaries) > 1 {
 			add("two-primaries", "transaction %s (start=%d): prewrites name different primaries %v", t.Prog, s, keysS(x.primaries))
